@@ -104,6 +104,8 @@ func finalBufferWrites(fn *ssa.Function) []string {
 
 func c14(p *P) {
 	r := p.r
+	p.gCopiesAreDeep("C14.R2", "prefixes")
+	p.gSignedBytesFresh("C14.R1")
 	r.Explanation = "Static necessary conditions of binding, agreeing and robust encodings: (R1) the exact ordered sequence of items written into the signed bytes of a payload, of a tipset and of the VRF input — every field present, integers fixed-width big-endian, the variable-length network name fenced by separators, distinct domain tags; (R2) the three chain-key computations (direct, batch, cached prefixes) hash TipSet.MarshalForSigning of every tipset in order and prefix i gets batch[i]; (R3) for every generated CBOR codec the fields written, the fields read and the struct declaration agree in order and count with the array header; (R4) in every generated decoder each allocation sized by a decoded header is unreachable unless the size passed an upper-bound comparison, and each cborgen maxlen tag appears as such a bound; (R5) the hand-written ECChain codec resets the receiver (incl. the cached key) before filling it and round-trips through the legacy slice type; (R6) the zstd codec: decoder memory cap and cap-limited DecodeAll with the same 1 MiB constant as the pooled buffer, encode-side size check, and the pooled buffer is returned only after the CBOR decode that reads from it has finished."
 	r.NotDecided = "round-trip equality for all values, collision resistance, panic-freedom of third-party decoders, BatchTree ≡ Tree (algorithmic)."
 	r.Assumptions = []string{"AS6: go/types, go/ssa and the rule tables are correct", "cbor-gen's header/byte-array helpers behave as documented"}
